@@ -1391,7 +1391,10 @@ pub fn check(log: &[Ev], size: usize) -> Report {
     rep.cn("S2.checked_resource_ids", per_id.len() as u64);
 
     // ---- S3: count samples
-    let mut last_ok_seq = 0u64;
+    // A sample was read somewhere between its call stamp and its return stamp. Samples are visited in
+    // return order; for a sample above the size, the reference "still within the size" sample is the
+    // last one that RETURNED before the bad one was CALLED (so it was certainly read earlier).
+    let mut ok_samples: Vec<(u64, u64)> = vec![]; // (return stamp, call stamp), increasing return stamp
     let mut exceeded_reported = false;
     for e in log.iter().filter(|e| e.kind == Kind::Count) {
         rep.c("S3.count_samples");
@@ -1403,21 +1406,21 @@ pub fn check(log: &[Ev], size: usize) -> Report {
             rep.c("S3.samples_above_size");
             if !exceeded_reported {
                 exceeded_reported = true;
+                let i = ok_samples.partition_point(|(r, _)| *r < e.ref_seq);
+                let last_ok_seq = if i == 0 { 0 } else { ok_samples[i - 1].1 };
                 let (sig, why, lines) = classify_s3(log, last_ok_seq, e.seq);
                 rep.c(&format!("S3.class.{sig}"));
                 rep.findings.push(Finding {
                     sig,
                     what: format!(
-                        "pool size {size}: count() returned {} at #{} (last sample <= size was called at #{last_ok_seq}). {why}",
-                        e.aux, e.seq
+                        "pool size {size}: count() called at #{} returned {} at #{} (the last sample <= size that returned before that call was called at #{last_ok_seq}). {why}",
+                        e.ref_seq, e.aux, e.seq
                     ),
                     excerpt: lines,
                 });
             }
         } else {
-            // the sample was read somewhere between its call and its return stamp: every give-back
-            // that returned after the *call* may have pushed after the read
-            last_ok_seq = e.ref_seq;
+            ok_samples.push((e.seq, e.ref_seq));
         }
     }
 
